@@ -326,7 +326,7 @@ def h3(ctx, R):
         isinstance(t, ast.Attribute) and t.attr == "loaded_extensions" for t in n.targets)]
     clears = [n for n in walk_no_nested(R.reset.node) if isinstance(n, ast.Call) and isinstance(n.func, ast.Attribute) and n.func.attr == "clear"
               and "loaded_extensions" in norm(n.func.value)]
-    ok = any(const_value(prog, R.reset, n.value) in ([], ()) for n in regw) or bool(clears)
+    ok = any(R.fresh_start_value(n.value) is not None for n in regw) or bool(clears)
     # unconditional inside the reset
     cfgr = ctx.cfg(R.reset)
     nodes = [x for n in regw for x in cfgr.nodes_for(n)] + [x for n in clears for x in cfgr.node_containing(n)]
@@ -376,6 +376,50 @@ def h4(ctx, R):
     fmod = prog.module("factory")
     # who-may-read the registry: the three gates and RequireCommand.complete_cb only
     allowed = {R.lookup.qualname, R.check_next_arg.qualname, R.valid_value.qualname if R.valid_value else "", "RequireCommand.complete_cb"}
+    # a helper of the gates: a function of commands.py that only the gates call
+    grew = True
+    while grew:
+        grew = False
+        for g in R.cmod.all_funcs():
+            if g.qualname in allowed:
+                continue
+            callers = [f for f in prog.all_funcs() for c in walk_no_nested(f.node) if isinstance(c, ast.Call) and call_name(c) == g.name and f is not g]
+            copied = g.qualname in (ctx.normalisation.get("helpers") or {})  # every call site holds a copy of its body
+            if (callers and all(f.qualname in allowed for f in callers)) or (not callers and copied):
+                allowed.add(g.qualname)
+                grew = True
+    # calls made inside `with <scope that suspends the checks>:` (rule E7 of C07) do not consult the registry
+    from .c07 import scoped_switches
+    switches = scoped_switches(ctx, R)
+    suspenders = set()
+    for g in R.cmod.all_funcs():
+        if any(isinstance(x, ast.Global) and set(x.names) & switches for x in ast.walk(g.node)) and any(
+                "contextmanager" in d for d in g.decorators):
+            suspenders.add(g.name)
+
+    always_suspended = set()
+
+    def suspended(call):
+        p_ = getattr(call, "_parent", None)
+        while p_ is not None:
+            if isinstance(p_, ast.With) and any(isinstance(it.context_expr, ast.Call) and call_name(it.context_expr) in suspenders for it in p_.items):
+                return True
+            if isinstance(p_, ast.FunctionDef) and p_.name in always_suspended:
+                return True
+            p_ = getattr(p_, "_parent", None)
+        return False
+    # a private method all of whose call sites are suspended runs suspended itself
+    if suspenders:
+        grew = True
+        while grew:
+            grew = False
+            for g in fmod.all_funcs():
+                if g.name in always_suspended or not g.name.startswith("_") or g.name.startswith("__init"):
+                    continue
+                sites = [c for f in fmod.all_funcs() for c in walk_no_nested(f.node) if isinstance(c, ast.Call) and call_name(c) == g.name and f is not g]
+                if sites and all(suspended(c) for c in sites):
+                    always_suspended.add(g.name)
+                    grew = True
     nread = 0
     for f in prog.all_funcs():
         for n_ in walk_no_nested(f.node):
@@ -416,6 +460,9 @@ def h4(ctx, R):
                 if a is not None and const_value(prog, f, a) is False:
                     ctx.holds("H4", label, "check disabled")
                     continue
+                if suspended(c):
+                    ctx.holds("H4", label, "inside a scope that suspends the checks")
+                    continue
                 a0 = c.args[0] if c.args else None
                 v = const_value(prog, f, a0) if a0 is not None else TOP
                 names = None
@@ -435,6 +482,9 @@ def h4(ctx, R):
                 a = bound_arg(c, cna, ce[0]) if ce else None
                 if a is not None and const_value(prog, f, a) is False:
                     ctx.holds("H4", label, "check disabled")
+                    continue
+                if suspended(c):
+                    ctx.holds("H4", label, "inside a scope that suspends the checks")
                     continue
                 atype = const_value(prog, f, c.args[0]) if c.args else TOP
                 if atype is not TOP and atype != "tag":
